@@ -214,7 +214,12 @@ class Runner:
         hdr = os.path.join(sub, "h.h")
         open(hdr, "w").write(prelude + emit_header(items))
         b = _built(flavor)
-        r, paths = tools.interrogate(b, [hdr], sub, opts=OPTS, timeout=60)
+        try:
+            r, paths = tools.interrogate(b, [hdr], sub, opts=OPTS, timeout=60)
+        except core.HarnessError:
+            # the shared build cache may be in the middle of a rebuild: wait for it (flock) and try once more
+            b = core.build(flavor)
+            r, paths = tools.interrogate(b, [hdr], sub, opts=OPTS, timeout=60)
         self.res.count("interrogate_runs")
         self.res.count("interrogate_runs_" + flavor)
         if r.timed_out:
@@ -231,14 +236,21 @@ class Runner:
             return ("ubsan-in-evaluate", ub), None, r
         if "runtime error:" in r.err:
             self.res.count("ubsan_arith_outside_evaluate", r.ubsan_arith())
-        rr = core.run([_idbdump(flavor), os.path.abspath(paths["od"])], timeout=60)
-        if rr.rc != 0 or rr.died():
-            return ("db-unreadable", rr.how()), None, r
         import json
-        try:
-            d = json.loads(rr.out)
-        except ValueError:
-            return ("db-unreadable", "json"), None, r
+        d = None
+        for attempt in (0, 1):
+            try:
+                rr = core.run([_idbdump(flavor), os.path.abspath(paths["od"])], timeout=60)
+                if rr.rc == 0 and not rr.died():
+                    d = json.loads(rr.out)
+                    break
+            except (core.HarnessError, ValueError):
+                pass
+            tools._idbdump.pop(flavor, None)
+            tools.idbdump_path(flavor)          # (re)build the reader under its lock, then try once more
+        if d is None:
+            # the database interrogate wrote cannot be read back: not a statement about constants (C11/C12's matter)
+            raise core.HarnessError("idbdump cannot read %s: %s" % (paths["od"], rr.err[-300:]))
         return None, read_db(d), r
 
 
@@ -378,7 +390,7 @@ class Batch:
         failed_names = set()
         shadow = set()
         for it in judged:
-            if it["k"] in ("var", "raw"):
+            if it["k"] == "raw":
                 continue
             sup = self.support([it])
             if any(n in failed_names for x in sup for n in item_defines(x)) or \
@@ -544,7 +556,15 @@ def judge_batch(ctx, case, res, items, prelude=""):
     failing = []            # (item, const-name | None when the run was lost, observation)
     failed_names = set()    # constants that failed or could not be judged: whatever uses them is not judged
     for it in items:
-        if it["k"] in ("var", "raw"):
+        if it["k"] == "raw":
+            continue
+        if it["k"] == "var":
+            # support only (nothing of it is stored as an integer) -- unless the run is lost with it alone
+            if id(it) in shadow or (item_refs(it) & failed_names):
+                failed_names.update(item_defines(it))
+            elif outs.get(id(it), ("obs",))[0] == "proc":
+                failed_names.update(item_defines(it))
+                failing.append((it, None, outs[id(it)]))
             continue
         consts = constants_of(it)
         if id(it) in shadow or (item_refs(it) & failed_names):
